@@ -27,16 +27,17 @@ Qed.
 Lemma fx_imports_from_spec : forall l pos tags,
   fx_imports_from pos l tags
   = map (fun pi : N * imp => mkRec [i_sp (snd pi); i_fp (snd pi)] [] (tgtok (lookup tags (fst pi))))
-        (filter (fun pi : N * imp => has_tag (lookup tags (fst pi))) (number pos l)).
+        (filter (fun pi : N * imp => negb (i_del (snd pi)) && has_tag (lookup tags (fst pi))) (number pos l)).
 Proof.
   induction l as [|i l IH]; intros pos tags; [reflexivity|]. cbn [fx_imports_from number filter fst snd].
-  rewrite IH. destruct (lookup tags pos) as [k|] eqn:E; cbn [opt_rec has_tag app map fst snd]; [rewrite E|]; reflexivity.
+  rewrite IH. destruct (i_del i); cbn [negb andb app]; [reflexivity|].
+  destruct (lookup tags pos) as [k|] eqn:E; cbn [opt_rec has_tag app map fst snd]; [rewrite E|]; reflexivity.
 Qed.
 
 Theorem additions_exact (s : sst) (lf lg lm : list item) :
   fx_types s = map (fun ct => mkRec [fst ct] [] (tgtok (snd ct))) (filter (fun ct => has_tag (snd ct)) (t_types s))
   /\ fx_imports s = map (fun pi : N * imp => mkRec [i_sp (snd pi); i_fp (snd pi)] [] (tgtok (lookup (t_imp_tag s) (fst pi))))
-                        (filter (fun pi : N * imp => has_tag (lookup (t_imp_tag s) (fst pi))) (number 0 (m_imports (t_m s))))
+                        (filter (fun pi : N * imp => negb (i_del (snd pi)) && has_tag (lookup (t_imp_tag s) (fst pi))) (number 0 (m_imports (t_m s))))
   /\ fx_exports s = map (fun e => mkRec [x_name e; x_kind e; x_index e] [] (tgtok (x_tag e)))
                         (filter (fun e => negb (x_del e) && has_tag (x_tag e)) (t_exports s))
   /\ fx_data s = map (fun d => mkRec [if d_active d then 1 else 0; d_byte d; if d_active d then d_mem d else 0] [] (tgtok (d_tag d)))
